@@ -1,12 +1,15 @@
 // C14 — RSA padding schemes: correspondence of crypto.{RSAPad,DecodeRSAPad,RSAEncryptHashed,
 // RSADecryptHashed} with the Lean model TdModel.C14 (byte exact), plus the property monitor on the
-// implementation (round trip, mutated / foreign-key ciphertexts fail).
+// implementation (round trip, ciphertext = independent reference of the specification text, mutated /
+// foreign-key ciphertexts fail).
 package main
 
 import (
 	"bytes"
+	"crypto/aes"
 	"crypto/rsa"
 	"crypto/sha1"
+	"crypto/sha256"
 	"fmt"
 	"go/ast"
 	"go/parser"
@@ -80,6 +83,7 @@ func facts(f *hc.Facts) {
 	f.Str("fillBytesCond", cond("FillBytes", firstIf), "first `if` of crypto.FillBytes (rejects)")
 	f.Str("rsaDataLenSrc", constSrc(f, "rsaDataLen"), "crypto.rsaDataLen")
 	f.Str("dataWithHashLengthSrc", constSrc(f, "dataWithHashLength"), "crypto.dataWithHashLength")
+	opsFacts(f)
 }
 
 // constSrc returns the source text of the value of a package-level constant of /repo/crypto.
@@ -173,6 +177,75 @@ func hexN(n *big.Int) string { return hc.Hex(n.Bytes()) }
 
 type cmp struct{ line, impl string }
 
+// ---- independent reference of the specification text (core.telegram.org/mtproto/auth_key, RSA_PAD)
+
+func refIGEEncrypt(key, iv, src []byte) []byte {
+	blk, _ := aes.NewCipher(key)
+	cPrev, mPrev := append([]byte{}, iv[:16]...), append([]byte{}, iv[16:]...)
+	out := make([]byte, 0, len(src))
+	for o := 0; o+16 <= len(src); o += 16 {
+		x := src[o : o+16]
+		t := make([]byte, 16)
+		for i := range t {
+			t[i] = x[i] ^ cPrev[i]
+		}
+		y := make([]byte, 16)
+		blk.Encrypt(y, t)
+		for i := range y {
+			y[i] ^= mPrev[i]
+		}
+		out = append(out, y...)
+		cPrev, mPrev = y, x
+	}
+	return out
+}
+
+func refRSA(block []byte, n *big.Int, e int) []byte {
+	out := make([]byte, 256)
+	new(big.Int).Exp(new(big.Int).SetBytes(block), big.NewInt(int64(e)), n).FillBytes(out)
+	return out
+}
+
+// refRSAPad: steps 1–9 for the given random tape (padding, then 32-byte temp keys until one is acceptable).
+func refRSAPad(data, tape []byte, n *big.Int, e int) []byte {
+	padLen := 192 - len(data)
+	if len(data) > 144 || len(tape) < padLen {
+		return nil
+	}
+	dwp := append(append([]byte{}, data...), tape[:padLen]...) // 1
+	rev := make([]byte, 192)                                   // 2
+	for i := range dwp {
+		rev[191-i] = dwp[i]
+	}
+	for rest := tape[padLen:]; len(rest) >= 32; rest = rest[32:] {
+		tempKey := rest[:32] // 3
+		hs := sha256.Sum256(append(append([]byte{}, tempKey...), dwp...))
+		dwh := append(append([]byte{}, rev...), hs[:]...)       // 4
+		aesEnc := refIGEEncrypt(tempKey, make([]byte, 32), dwh) // 5
+		ha := sha256.Sum256(aesEnc)
+		kae := make([]byte, 0, 256) // 6, 7
+		for i := range tempKey {
+			kae = append(kae, tempKey[i]^ha[i])
+		}
+		kae = append(kae, aesEnc...)
+		if new(big.Int).SetBytes(kae).Cmp(n) >= 0 { // 8
+			continue
+		}
+		return refRSA(kae, n, e) // 9
+	}
+	return nil
+}
+
+// refHashed: data_with_hash := SHA1(data) + data + (random bytes), 255 bytes; RSA.
+func refHashed(data, tape []byte, n *big.Int, e int) []byte {
+	if len(data) > 235 || len(tape) < 255 {
+		return nil
+	}
+	hs := sha1.Sum(data)
+	blk := append(append(append([]byte{}, hs[:]...), data...), tape[20+len(data):255]...)
+	return refRSA(blk, n, e)
+}
+
 func run(c *hc.Ctx) error {
 	r := c.Rng
 	var cs []cmp
@@ -237,6 +310,10 @@ func run(c *hc.Ctx) error {
 			}
 			c.Count("pad.ok")
 			add(line, got)
+			// monitor: the ciphertext is the RSA_PAD construction of the specification (independent reference)
+			if want := refRSAPad(data, tape, k.priv.N, k.priv.E); !bytes.Equal(want, enc) {
+				c.Fail("rsapad-not-spec", line, fmt.Sprintf("RSAPad = %s, specification (steps 1-9) gives %s", hc.Hex(enc), hc.Hex(want)))
+			}
 			// monitor: round trip gives data followed by the padding taken from the random source
 			var dec []byte
 			dgot := safely(func() string {
@@ -343,6 +420,9 @@ func run(c *hc.Ctx) error {
 				continue
 			}
 			c.Count("henc.ok")
+			if want := refHashed(data, tape, k.priv.N, k.priv.E); !bytes.Equal(want, enc) {
+				c.Fail("rsahashed-not-spec", line, fmt.Sprintf("RSAEncryptHashed = %s, specification gives %s", hc.Hex(enc), hc.Hex(want)))
+			}
 			var dec []byte
 			dgot := safely(func() string {
 				out, err := crypto.RSADecryptHashed(enc, k.priv)
